@@ -51,7 +51,7 @@ func (c13) Runs(t Tier) int {
 }
 func (c13) RecordWidths() map[string]int { return map[string]int{"corrupt": 4} }
 func (c13) RequiredProbes() []string {
-	return []string{"bitflip", "truncate", "extend", "misdirected", "type-rewrite", "fanout-rewrite", "fanout-mismatch-parent-child", "bitfield-longer", "bitfield-shorter", "hashtype-rewrite", "filesize-rewrite", "blocksizes-rewrite", "name-absent", "name-short", "name-duplicate", "tsize-absent", "corrupt-at-kth-read", "link-retarget", "deep-shard-chain", "mixed-fanout-chain", "diamond-shard-chain", "decoder-bytes", "op-error", "op-ok-despite-corruption"}
+	return []string{"bitflip", "truncate", "extend", "misdirected", "type-rewrite", "fanout-rewrite", "fanout-mismatch-parent-child", "bitfield-longer", "bitfield-shorter", "hashtype-rewrite", "filesize-rewrite", "blocksizes-rewrite", "name-absent", "name-short", "name-duplicate", "tsize-absent", "corrupt-at-kth-read", "link-retarget", "hostile-cbor-child", "deep-shard-chain", "mixed-fanout-chain", "diamond-shard-chain", "decoder-bytes", "op-error", "op-ok-despite-corruption"}
 }
 
 type c13Scenario struct {
@@ -453,11 +453,15 @@ func corruptBlock(res *Result, st *store.Store, info map[string]*blockInfo, orde
 			rn.Links[i].Hash = t.Bytes()
 			desc = fmt.Sprintf("link %d retargeted to %s", i, shortCid(t))
 		case 2:
-			// dag-cbor codec over the stray block's hash: no such block, and no
-			// dag-cbor decoder is registered in this link system
-			t := cid.NewCidV1(0x71, extra.Hash())
+			// a dag-cbor block of a hostile shape (Links that is not a list, a
+			// plain string, dag-pb look-alikes ...): "any child blocks"
+			t := gen.PutHostileCbor(st, int(b>>8), extra)
+			if !t.Defined() {
+				return nil, ""
+			}
 			rn.Links[i].Hash = t.Bytes()
-			desc = fmt.Sprintf("link %d retargeted to a dag-cbor CID", i)
+			desc = fmt.Sprintf("link %d retargeted to hostile dag-cbor block (variant %d)", i, int(b>>8)%7)
+			res.probe("hostile-cbor-child")
 		default:
 			r := tape.NewSplitMix(b)
 			g := make([]byte, 1+(b>>8)%40)
@@ -732,6 +736,11 @@ func (c13) Run(ts *tape.Set, tier Tier) *Result {
 					nm := names[int(r.Next()%uint64(len(names)))]
 					probe = append(probe, nm, nm+"x", nm[:len(nm)/2])
 				}
+				if len(names) <= 64 {
+					// every member: each lands in its own bucket, so whichever link
+					// was tampered with is the target of some lookup
+					probe = append(probe, names...)
+				}
 				var lastErr error
 				for _, p := range probe {
 					if _, err := n.LookupByString(p); err != nil {
@@ -907,6 +916,9 @@ func (c13) Run(ts *tape.Set, tier Tier) *Result {
 		raw[i] = byte(rr.Next())
 	}
 	payloads = append(payloads, raw)
+	for i := 0; i < 12; i++ {
+		payloads = append(payloads, gen.RandomProto(rr.Next, 0))
+	}
 	{
 		ext := []uint64{0, 1, 5, 1 << 31, 1<<63 - 1, 1 << 63, 1<<64 - 1}
 		u := &gen.RawUnixFS{Type: ext[rr.Next()%7], HasType: true, FileSize: ext[rr.Next()%7], HasFileSize: rr.Next()%2 == 0,
